@@ -297,6 +297,30 @@ def f_to_float(s):
     return ('F' if len(seen) == 1 else 'X') + seen[-1]
 
 
+def f_expand(tokens, expected=None):
+    '''MIP.mip.datacard.expand_data_card on a token list (natural order):
+    values as exact fractions (None = J), then the number of tokens consumed.'''
+    from fractions import Fraction
+    from MIP.mip.datacard import expand_data_card
+    try:
+        with time_limit(3):
+            vals, consumed = expand_data_card(list(tokens), expected=expected)
+    except IndexError:
+        return SEP4 + 'XIndex'
+    except ValueError:
+        return SEP4 + 'XValue'
+    except TypeError:
+        return SEP4 + 'XType'
+    out = []
+    for v in vals:
+        if v is None:
+            out.append('J')
+        else:
+            q = Fraction(v).limit_denominator(10 ** 6)
+            out.append(f'{q.numerator}/{q.denominator}')
+    return ser_list(out) + SEP2 + str(consumed)
+
+
 FUNS = {
     0: ('is_comment', f_is_comment), 1: ('has5', f_has5),
     2: ('amp_cont', f_amp_cont), 3: ('expand_tabs', f_expand_tabs),
